@@ -1331,3 +1331,11 @@ Proof. vm_compute. reflexivity. Qed.
 Example machine_of_witness_ok :
   machine_ok (bmachine_of cg_emitted (flatten false w_nested_hist)) (m_maxs (flatten false w_nested_hist)) (m_maxt (flatten false w_nested_hist)).
 Proof. apply bmachine_of_ok; [apply flatten_idx_ok | vm_compute; reflexivity | vm_compute; reflexivity]. Qed.
+
+(* the other repair of the history tables (inner histories claim their states first) agrees with the fast engine on the
+   witness as well *)
+Example witness_nested_history_inner_first :
+  let cvi := {| cg_hist_active_parent := false; cg_tlf_first_byte := false; cg_cover := CoverInnerFirst |} in
+  cgen_cfgs cvi w_nested_hist [ev_a; ev_out; ev_sh] = fast_cfgs w_nested_hist [ev_a; ev_out; ev_sh] /\
+  cgen_cfgs cvi w_nested_hist [ev_a; ev_out; ev_deep] = fast_cfgs w_nested_hist [ev_a; ev_out; ev_deep].
+Proof. vm_compute. split; reflexivity. Qed.
